@@ -313,6 +313,9 @@ def run(ctx):
     # the enum name scanner stops where a copula starts; a recogniser that answers true for a truncated copula cuts a bare atom at the end of the formatter output (D9)
     import fullmatch
     fullmatch.rule_P_FULLMATCH(ctx)
+    # component order is preserved end to end (formatter, templates, parsers, fold, accessors)
+    import maps as _maps
+    _maps.rule_O_ORDER(ctx)
     ctx.undecided = ["that parsed and original values compare equal for all values (depends on C06 and on run-time data)",
                      "nesting-dependent ambiguity; name well-formedness side conditions"]
     ctx.assumptions = ["f64 Display emits only digits and '.' for finite values in [0,1] (std guarantee)",
